@@ -16,7 +16,8 @@ THEOREM_FUNCS = {
     "Line3_closestPointToLine": ["Line3.closestPointToLine"],
     "closestPoints_cases": ["LineAlgo.closestPoints"], "LineAlgo_closestPoints": ["LineAlgo.closestPoints"],
     "LineAlgo_closestPoints_no_div_by_zero": ["LineAlgo.closestPoints"],
-    "Line3_distanceToLine": ["Line3.distanceToLine"], "Line3_distanceToLine_partial": ["Line3.distanceToLine"],
+    "Line3_distanceToLine": ["Line3.distanceToLine"], "Line3_distanceToLine_perpendicular": ["Line3.distanceToLine"],
+    "Line3_distanceToLine_witness_skew": ["Line3.distanceToLine"], "Line3_distanceToLine_witness_parallel": ["Line3.distanceToLine"],
     "Plane3_setPoints": ["Plane3.setPoints", "Plane3.distanceTo"], "Plane3_setPoints_degenerate": ["Plane3.setPoints"],
     "Plane3_ctorPoints": ["Plane3.setPoints"], "Plane3_setPointNormal": ["Plane3.setPointNormal"],
     "Plane3_ctorPointNormal": ["Plane3.setPointNormal"], "Plane3_setNormalDistance": ["Plane3.setNormalDistance"],
@@ -40,36 +41,28 @@ for _n in ("2", "3", "4"):
 FUNC_THEOREM = {"Line3.distanceToLine": "Line3_distanceToLine"}
 
 WITNESS = r'''
-import ImathVerif.Spec.GeoSpec
 import ImathVerif.Gen.C15Line
-import Mathlib.Tactic.NormNum
-set_option linter.unusedTactic false
-set_option linter.unreachableTactic false
-open ImathVerif ImathVerif.Geo
-/-- lines (0,0,0)+s(1,0,0) and (0,0,1)+t(3/5,4/5,0): unit directions at angle acos(3/5); the common perpendicular is the
-z axis segment of length 1; d1 x d2 = (0,0,4/5) of length 4/5 -/
+open ImathVerif
+def rsqrt (x : Rat) : Rat := (Nat.sqrt x.num.natAbs : Rat) / (Nat.sqrt x.den : Rat)
+/-- the inputs on which the code was wrong before /repo commit 0d82c71 (it returned 4/5 and 0), a perpendicular pair and
+a 3-4-5 skew pair; true distances 1, 2, 3, 1 -/
 def l1 : Line3 Rat := ⟨⟨0, 0, 0⟩, ⟨1, 0, 0⟩⟩
 def l2 : Line3 Rat := ⟨⟨0, 0, 1⟩, ⟨3 / 5, 4 / 5, 0⟩⟩
-def m1 : Line3 Rat := ⟨⟨0, 0, 0⟩, ⟨1, 0, 0⟩⟩
 def m2 : Line3 Rat := ⟨⟨0, 2, 0⟩, ⟨1, 0, 0⟩⟩
-def stub (x : Rat) : Rat := x
+def p2 : Line3 Rat := ⟨⟨5, 7, 3⟩, ⟨0, 1, 0⟩⟩
+def q2 : Line3 Rat := ⟨⟨2, 2, 1⟩, ⟨-4 / 5, 3 / 5, 0⟩⟩
 def D (a b : Line3 Rat) : Rat := by
   first
+    | exact Gen.Line3.distanceToLine ((1 : Rat) / 1024) rsqrt a b
+    | exact Gen.Line3.distanceToLine rsqrt a b
     | exact Gen.Line3.distanceToLine a b
-    | exact Gen.Line3.distanceToLine 0 stub a b
-    | exact Gen.Line3.distanceToLine stub a b
-#eval IO.println s!"WITNESS skew {D l1 l2} parallel {D m1 m2}"
-/-- negation of the full-strength statement on the witness: the distance of the two lines is 1 (the points (0,0,0) and
-(0,0,1) realise it and the segment is perpendicular to both directions), the code's value squared is not 1 -/
-theorem witness_skew : dot (sub (lineAt l1 0) (lineAt l2 0)) l1.dir = 0 ∧ dot (sub (lineAt l1 0) (lineAt l2 0)) l2.dir = 0 ∧
-    dist2 (lineAt l1 0) (lineAt l2 0) = 1 ∧ D l1 l2 ^ 2 ≠ 1 := by
-  simp only [D, Gen.Line3.distanceToLine, l1, l2, dot, sub, lineAt, dist2]; norm_num
-/-- parallel lines at distance 2 -/
-theorem witness_parallel : dist2 (lineAt m1 0) (lineAt m2 0) = 4 ∧ dot (sub (lineAt m1 0) (lineAt m2 0)) m1.dir = 0 ∧ D m1 m2 ^ 2 ≠ 4 := by
-  simp only [D, Gen.Line3.distanceToLine, m1, m2, dot, sub, lineAt, dist2]; norm_num
-#print axioms witness_skew
-#print axioms witness_parallel
+#eval IO.println s!"WITNESS {D l1 l2} {D l1 m2} {D l1 p2} {D l1 q2}"
 '''
+WITNESS_EXPECT = ["1", "2", "3", "1"]
+WITNESS_INPUTS = [("skew 3-4-5 (old code: 4/5)", ["0", "0", "0", "1", "0", "0", "0", "0", "1", "0.6", "0.8", "0"]),
+                  ("parallel (old code: 0)", ["0", "0", "0", "1", "0", "0", "0", "2", "0", "1", "0", "0"]),
+                  ("perpendicular", ["0", "0", "0", "1", "0", "0", "5", "7", "3", "0", "1", "0"]),
+                  ("skew 3-4-5 rotated", ["0", "0", "0", "1", "0", "0", "2", "2", "1", "-0.8", "0.6", "0"])]
 
 
 def run_residue(chk, binary, n):
@@ -89,6 +82,28 @@ def run_residue(chk, binary, n):
     return info
 
 
+PARALLEL_KEY = "closestPoints:exactly-parallel-reported-true"
+
+
+def parallel_repro(binary, idx_deps):
+    """fixed concrete instance: l1 = Line3d((0,0,0),(1,0,1)), l2 = Line3d((1,0,0),(2,0,1)); both stored directions are the
+    same doubles (1/sqrt2, 0, 1/sqrt2) but fl(dir.dir) = 1 - 2^-52, so 1 - (d1.d2)^2 = 4.4e-16 instead of 0 and the code divides"""
+    import math
+    c = 1.0 / math.sqrt(2.0)
+    out = {"concrete_input": "closestPoints(Line3d(V3d(0,0,0),V3d(1,0,1)), Line3d(V3d(1,0,0),V3d(2,0,1)), p1, p2): stored directions bitwise equal "
+                             "(0.70710678118654746,0,0.70710678118654746); returns true, p1=(0.176777,0,0.176777), p2=(0.823223,0,-0.176777), "
+                             "|p1-p2|=0.736813, true distance 0.707107 (any point pair on a common perpendicular)",
+           "reading": "d1.d2 is computed as fl(dir.dir) = 0.99999999999999978, so d = 1 - d1d2^2 = 4.4e-16 is not 0 and the guard (which only "
+                      "tests overflow of n/d) passes: parallel lines AS REPRESENTED are not reported and the returned points are not closest"}
+    if binary:
+        cmd = [binary, "real", "LineAlgo.closestPoints", "0", "0", "0", repr(c), "0", repr(c), "1", "0", "0", repr(c), "0", repr(c)]
+        for d in idx_deps:
+            cmd += ["--idx", d]
+        rc, o = lib.sh(cmd, timeout=120)
+        out["real_code_at_double"] = o.strip().split("\n")[-1] if o.strip() else None
+    return out
+
+
 _WITNESS_CACHE = {}
 
 
@@ -99,32 +114,29 @@ def distance_witness(chk, binary, idx_deps):
 
 
 def _distance_witness(chk, binary, idx_deps):
-    """Machine-check the negation of the full-strength Line3_distanceToLine statement on a rational unit-direction
-    witness against the CURRENT Gen, and replay the witness on the real code at double."""
+    """Evaluate the regenerated Gen.Line3.distanceToLine at Rat (exact) on rational unit-direction line pairs with known
+    distances and replay them on the real code at double; returns a replay dict if a value is wrong, else None."""
     rc, out = lib.lean_run_file(WITNESS, timeout=600, name="c15witness")
-    m = re.search(r"WITNESS skew (\S+) parallel (\S+)", out)
-    ax = re.findall(r"'(witness_\w+)' (does not depend on any axioms|depends on axioms: \[[^\]]*\])", out)
-    lean_ok = rc == 0 and m is not None and "error" not in out
-    real = []
-    for args in (["0", "0", "0", "1", "0", "0", "0", "0", "1", "0.6", "0.8", "0"], ["0", "0", "0", "1", "0", "0", "0", "2", "0", "1", "0", "0"]):
+    m = re.search(r"WITNESS (\S+) (\S+) (\S+) (\S+)", out)
+    if not m:
+        lib.log("distance witness could not be evaluated: " + out[-300:])
+        return None
+    got = list(m.groups())
+    real = {}
+    for (what, args), exp in zip(WITNESS_INPUTS, WITNESS_EXPECT):
         cmd = [binary, "real", "Line3.distanceToLine"] + args
         for d in idx_deps:
             cmd += ["--idx", d]
         rc2, o2 = lib.sh(cmd, timeout=120)
-        real.append(o2.strip().split("\n")[-1] if o2.strip() else None)
-    if not lean_ok:
+        real["%s (expected %s)" % (what, exp)] = o2.strip().split("\n")[-1] if o2.strip() else None
+    bad = [i for i in range(4) if got[i] != WITNESS_EXPECT[i]]
+    if not bad:
         return None
     return {"key": "theorem:Line3_distanceToLine",
-            "failing_input": {"skew": "l1 = (0,0,0)+s(1,0,0), l2 = (0,0,1)+t(3/5,4/5,0): true distance 1 (common perpendicular (0,0,0)-(0,0,1))",
-                              "parallel": "m1 = (0,0,0)+s(1,0,0), m2 = (0,2,0)+t(1,0,0): true distance 2"},
-            "model_value_at_Rat": {"skew": m.group(1), "parallel": m.group(2)},
-            "negation_machine_checked": "theorems witness_skew / witness_parallel (simp only + norm_num) against the regenerated Gen.Line3.distanceToLine",
-            "witness_axioms": ax,
-            "real_code_at_double": {"skew (expected 1)": real[0], "parallel (expected 2)": real[1]},
-            "reading": "the code returns |(p2-p1).(d1 x d2)| without dividing by |d1 x d2|: distance * sin(angle), and 0 for parallel lines",
-            "minimal_fix": "ImathLine.h Line3<T>::distanceTo(const Line3&): Vec3<T> n = dir % line.dir; T l = n.length(); "
-                           "if (l == T(0)) return distanceTo(line.pos); T d = (n ^ (line.pos - pos)) / l; return (d >= 0) ? d : -d;"}
-
+            "failing_input": {"lines (pos, dir)": WITNESS_INPUTS[bad[0]][1], "which": WITNESS_INPUTS[bad[0]][0]},
+            "expected_distance": WITNESS_EXPECT[bad[0]], "model_value_at_Rat": got[bad[0]],
+            "all_model_values": got, "all_expected": WITNESS_EXPECT, "real_code_at_double": real,
+            "evaluated_at": "Rat (exact; sqrt exact on the perfect squares that occur), Gen regenerated from the current tree"}
 
 # ---------------------------------------------------------------------------
 # exact-arithmetic failing-input search for the functions whose decisions have boundaries (triangle edges, tangent and
@@ -257,10 +269,10 @@ def run(chk):
     res = run_residue(chk, bins["c15_residue"], 6000 if chk.thorough else 1500) if bins.get("c15_residue") else {"ran": False, "fails": {}}
 
     def search(name):
-        if name == "Line3_distanceToLine":
+        if name.startswith("Line3_distanceToLine"):
             w = distance_witness(chk, bins.get("sym_c15"), [leaf_idx]) if bins.get("sym_c15") else None
             if w:
-                return w
+                return dict(w, key="theorem:" + name)
         # decisions with boundaries: exact evaluation of the model on rational configurations incl. the boundary cases
         which = "triangle" if (name.startswith("tri_") or name.startswith("LineAlgo_intersect")) else ("sphere" if name.startswith("Sphere3_intersect") else None)
         if which:
@@ -294,16 +306,27 @@ def run(chk):
             bad = res["fails"].get(fn, [])
             chk.oblige("residue:%s: real float/double results = exact lattice answers to c*eps*scale*cond; decisions agree away from edges" % fn,
                        "residue", not bad, bad[:2] or None)
-            if bad:
-                th = FUNC_THEOREM.get(fn)
-                key = "theorem:" + th if th else "residue:%s:%s" % (fn, bad[0]["class"])
-                rep = dict(bad[0], failing_cases=len(bad), found_by="harness/corr/c15_residue.cpp (real code vs exact lattice oracle)")
-                if th == "Line3_distanceToLine":
-                    w = distance_witness(chk, bins.get("sym_c15"), [leaf_idx]) if bins.get("sym_c15") else None
+            groups = {}
+            for b in bad:
+                if fn == "LineAlgo.closestPoints" and b["class"].startswith("exactly-parallel-reported-true"):
+                    key = PARALLEL_KEY
+                elif fn in FUNC_THEOREM:
+                    key = "theorem:" + FUNC_THEOREM[fn]
+                else:
+                    key = "residue:%s:%s" % (fn, b["class"])
+                groups.setdefault(key, []).append(b)
+            for key, bs in groups.items():
+                rep = dict(bs[0], failing_cases=len(bs), found_by="harness/corr/c15_residue.cpp (real code vs exact lattice oracle)",
+                           input_layout="lattice points a0 a1 (line 1 = Line3(a0,a1)), b0 b1 (line 2), p")
+                if key == PARALLEL_KEY:
+                    rep.update(parallel_repro(bins.get("sym_c15"), [leaf_idx]))
+                    rep["classes"] = sorted(set(b["class"] for b in bs))
+                if key == "theorem:Line3_distanceToLine" and bins.get("sym_c15"):
+                    w = distance_witness(chk, bins["sym_c15"], [leaf_idx])
                     if w:
                         rep.update(w)
                 chk.fail("residue:" + fn, key, "real code disagrees with the exact answer on a lattice configuration: %s (%s, %s) %s"
-                         % (fn, bad[0]["class"], bad[0]["element_type"], bad[0]["detail"]), rep, True)
+                         % (fn, bs[0]["class"], bs[0]["element_type"], bs[0]["detail"]), rep, True)
         chk.residues["C15"] = {"evaluations": res["evals"],
                                "worst_error_in_units_of_eps_times_scale_times_conditioning": res["maxima"],
                                "bounds": "4 (unit vectors), 16-64 (points, distances, parameters); conditioning 1/sin^2 for line pairs, 1/|cos| for "
